@@ -71,7 +71,9 @@ def parseCase (j : Json) : P Case := do
   let r ← fld j "request"
   let req : Request := { deps := (arrD r "deps").toList.map parseFile, file := parseFile (← fld r "file") }
   let yaml := match j.getObjVal? "yaml" with | .ok (.obj o) => parseConfig (.obj o) | _ => {}
-  let st := match strD j "yamlState" with | "none" => YamlState.none | "missing" => .missing | "garbage" => .garbage | _ => .ok
+  let ys := strD j "yamlState"
+  let st := if ys.startsWith "garbage" then YamlState.garbage else
+    match ys with | "none" => YamlState.none | "missing" => .missing | _ => .ok
   pure { request := req, yaml := yaml, yamlState := st, cli := kvList j "cli" }
 
 -- hex ---------------------------------------------------------------------------------------------------
